@@ -9,3 +9,6 @@ import NB.Drv.C17
 import NB.Drv.C10
 import NB.Drv.C18
 import NB.Drv.C06
+import NB.Drv.C08
+import NB.Drv.C03
+import NB.Drv.C07
